@@ -405,3 +405,53 @@ package types
 //@   modifies c.headers, Mem(c.headers)
 //@   opt noframe
 //@   ensures result == c
+
+// ---- event emitter (C20): registrations hold no nil entries; Once fires through a Once of its own registration; removal
+// takes exactly one entry ------------------------------------------------------------------------------------------------
+//@ func (*emmiter).addListeners(evt, listeners)
+//@   requires e != nil
+//@   modifies *
+//@ func (*emmiter).AddListener(evt, listeners)
+//@   props C20
+//@   requires e != nil
+//@   modifies *
+//@   loop 1 invariant len(events) == len(listeners) && fresh(backing(events))
+//@   ensures [C20.add.none] len(listeners) == 0 ==> calls((*emmiter).addListeners) == 0
+//@   callsite (*emmiter).addListeners#1
+//@     assert [C20.add.nonnil] forall k int :: 0 <= k && k < len($listeners) ==> $listeners[k] != nil   // a nil listener is skipped, not registered as a nil entry
+//@     assert [C20.add.evt]    $evt == evt && len($listeners) <= len(listeners)
+//@ func (*emmiter).Once(evt, listeners)
+//@   props C20
+//@   requires e != nil
+//@   modifies *
+//@   loop 1 invariant len(events) == len(listeners) && fresh(backing(events))
+//@   callsite (*emmiter).addListeners#1
+//@     assert [C20.once.nonnil] forall k int :: 0 <= k && k < len($listeners) ==> $listeners[k] != nil
+//@     assert [C20.once.evt]    $evt == evt && len($listeners) <= len(listeners)
+
+// a Once listener fires through the sync.Once of its own registration (at most once overall, whatever other
+// registrations exist), and removes its registration after running
+//@ func (*oneTimeListener).execute(vals)
+//@   props C20
+//@   requires l != nil && l.fired != nil
+//@   modifies *
+//@   ensures [C20.once.gate] calls((*sync.Once).Do) == 1 && arg((*sync.Once).Do, 1, o) == l.fired && nevents() == 1
+//@ func (*oneTimeListener).execute$1()
+//@   props C20
+//@   requires l != nil && l.emitter != nil && l.fn != nil
+//@   modifies *
+//@   ensures [C20.once.remove] calls((*emmiter).RemoveListener) == 1 && arg((*emmiter).RemoveListener, 1, evt) == old(l.evt) && arg((*emmiter).RemoveListener, 1, e) == old(l.emitter)
+
+// removal: a nil function removes nothing; otherwise the first registration whose code pointer matches is spliced out -
+// one entry, at its own index
+// (RemoveListener itself passes &e.evtListeners - a pointer into the emitter object - to the Map methods, which is outside
+// the subset; its splice callback is under contract)
+//@ func (*emmiter).RemoveListener$1(listener, i)
+//@   props C20
+//@   requires listener != nil   // registrations hold no nil entries (C20.add.nonnil, C20.once.nonnil)
+//@   modifies nothing
+//@   ensures [C20.remove.exactlyone] result0 == (listener.ptr == targetPtr) && result1 == i && result2 == 1 && len(result3) == 0
+//@ func (*Slice).RangeAndSplice(f, reverse)
+//@   trusted "callback-taking container method (generic callback results are not modelled); the splice it performs is proved on (*Slice).splice"
+//@   requires s != nil
+//@   modifies *
